@@ -169,7 +169,10 @@ def run(ctx, F):
         ("policy::largeobjectspace::LargeObjectSpace::trace_object", r"mark_as_unlogged", [r"test_and_mark"]),
         ("policy::immortalspace::ImmortalSpace::trace_object", r"store_atomic|mark_as_unlogged", [r"test_and_mark"]),
     ]
-    if "policy::vmspace::VMSpace::trace_object" in F.fns:
+    # VMSpace re-arms unlog bits only under the opt-in feature `set_unlog_bits_vm_space` (otherwise the binding owns the boot image's
+    # unlog bits): none of the analysed configurations enables it, so the row is armed only if the store is compiled in
+    _vmt = F.fns.get("policy::vmspace::VMSpace::trace_object")
+    if _vmt is not None and any(re.fullmatch(r"store_atomic|mark_as_unlogged", c.name or "") and "LOG_BIT_SPEC" in show(strip(_vmt.flow.arg_tree(c, 0))) for c in live_calls(_vmt)):
         table.append(("policy::vmspace::VMSpace::trace_object", r"store_atomic|mark_as_unlogged", [r"test_and_mark"]))
     for q, rx, extra_ok in table:
         f = F.fn(q)
@@ -210,3 +213,39 @@ def run(ctx, F):
     m = live_calls(gb, name="get_mature_space_args")
     ctx.judge(len(m) == 1 and bool(guard_find(gb, m[0].bb, r"^arg2$", True)), "C05.unlog-on-trace", "common spaces of generational plans are mature spaces", expected="get_mature_space_args iff generational",
               found=str([guard_strs(gb, c.bb) for c in m]), where=where(gb), key="C05.unlog-on-trace|base-args")
+    _alloc_unlog(ctx, F)
+
+
+def _alloc_unlog(ctx, F):
+    """C05.alloc-unlog: spaces of CommonPlan/BasePlan are created as mature spaces in generational plans (unlog_allocated_object =
+    true): their objects are not traced by nursery GCs, so a store into a freshly allocated one must already be seen by the
+    object barrier - initialize_object_metadata sets the unlog bit when the space asks for it."""
+    cpa = F.adts.get("plan::global::CommonPlan")
+    bpa = F.adts.get("plan::global::BasePlan")
+    tys = set()
+    for a in (cpa, bpa):
+        if not a:
+            continue
+        for fld in a["variants"][0]["fields"]:
+            m = re.match(r"^(policy::[\w:]+Space)<", fld["ty"])
+            if m:
+                tys.add(m.group(1))
+    n = 0
+    for ty in sorted(tys):
+        f = F.fns.get("<%s as policy::sft::SFT>::initialize_object_metadata" % ty)
+        if f is None or f.cfg.noreturn:
+            continue
+        n += 1
+        ul = [c for c in live_calls(f) if c.name == "mark_as_unlogged"]
+        ok = len(ul) >= 1 and all(show(strip(f.flow.arg_tree(c, 1))) == "arg2" and any(show(p.tree) == "arg1.common.unlog_allocated_object" and p.val is True for p in guards(f, c.bb)) for c in ul)
+        ctx.judge(ok, "C05.alloc-unlog", "%s unlogs a newly allocated object when it is created as a mature space" % last_seg(ty), expected="if self.common.unlog_allocated_object { GLOBAL_LOG_BIT_SPEC.mark_as_unlogged(object) }",
+                  found="%d mark_as_unlogged call(s); guards %s" % (len(ul), [guard_strs(f, c.bb) for c in ul]), where=where(f), key="C05.alloc-unlog|" + last_seg(ty))
+    ctx.floor("C05.alloc-unlog", n, 2, "policies used as common/base spaces")
+    g = F.fn("plan::global::CreateSpecificPlanArgs::get_base_space_args")
+    mat = [c for c in live_calls(g) if c.name == "get_mature_space_args"]
+    ctx.judge(len(mat) == 1 and any(show(p.tree) == "arg2" and p.val is True for p in guards(g, mat[0].bb)), "C05.alloc-unlog", "common/base spaces of a generational plan are mature spaces", expected="get_mature_space_args under `generational`",
+              found=str([guard_strs(g, c.bb) for c in mat]), where=where(g), key="C05.alloc-unlog|preset")
+    m = F.fn("plan::global::CreateSpecificPlanArgs::get_mature_space_args")
+    cs = [c for c in live_calls(m) if c.name == "_get_space_args"]
+    ctx.judge(len(cs) == 1 and const_arg(m.flow.arg_tree(cs[0], 4)) is True and const_arg(m.flow.arg_tree(cs[0], 5)) is True, "C05.alloc-unlog", "a mature space unlogs allocated and traced objects", expected="_get_space_args(.., true, true, ..)",
+              found=str([(const_arg(m.flow.arg_tree(c, 4)), const_arg(m.flow.arg_tree(c, 5))) for c in cs]), where=where(m), key="C05.alloc-unlog|mature")
